@@ -51,16 +51,16 @@ func TestBoundedB1(t *testing.T) {
 			}
 			dsl, err := transformer.TransformJSONProtoToDSL(m)
 			if !proto.Equal(before, m) {
-				reps["C13"].violation(id, "TransformJSONProtoToDSL modified its input model")
+				reps["C13"].violation("input-modified", id, "TransformJSONProtoToDSL modified its input model")
 			}
 			want := expressible(x)
 			if (err == nil) != want {
-				reps["C02"].violation(id, "conversion succeeded=%v but expressible=%v (err=%v)", err == nil, want, err)
+				reps["C02"].violation("verdict", id, "conversion succeeded=%v but expressible=%v (err=%v)", err == nil, want, err)
 				continue
 			}
 			if err != nil {
 				if !strings.Contains(err.Error(), "not supported by the OpenFGA DSL syntax") {
-					reps["C02"].violation(id, "unexpected error kind: %v", err)
+					reps["C02"].violation("error-kind", id, "unexpected error kind: %v", err)
 				}
 				continue
 			}
@@ -69,43 +69,43 @@ func TestBoundedB1(t *testing.T) {
 			for k := 0; k < 3; k++ {
 				again, err2 := transformer.TransformJSONProtoToDSL(m)
 				if err2 != nil || again != dsl {
-					reps["C14"].violation(id, "repeated printing differs")
+					reps["C14"].violation("not-repeatable", id, "repeated printing differs")
 					break
 				}
 			}
 			withSrc, err3 := transformer.TransformJSONProtoToDSL(m, transformer.WithIncludeSourceInformation(true))
 			if err3 != nil || stripComments(withSrc) != stripComments(dsl) {
-				reps["C14"].violation(id, "output with source information differs beyond comments")
+				reps["C14"].violation("comments-not-inert", id, "output with source information differs beyond comments")
 			}
 			// C02: parse back
 			m2, err := transformer.TransformDSLToProto(dsl)
 			if err != nil {
-				reps["C02"].violation(id, "produced DSL is rejected by the parser: %v", firstLine(err.Error()))
+				reps["C02"].violation("output-not-parseable", id, "produced DSL is rejected by the parser: %v", firstLine(err.Error()))
 				continue
 			}
 			if got, exp := modelDigest(m2, false), modelDigest(m, true); got != exp {
-				reps["C02"].violation(id, "parse(print(m)) differs from normalise(m):\n got %s\nwant %s", got, exp)
+				reps["C02"].violation("roundtrip-differs", id, "parse(print(m)) differs from normalise(m):\n got %s\nwant %s", got, exp)
 				continue
 			}
 			// C01: the parsed model printed again - directly and through JSON - is byte-stable
 			dsl2, err := transformer.TransformJSONProtoToDSL(m2)
 			if err != nil {
-				reps["C01"].violation(id, "printer rejects the model returned by the parser: %v", err)
+				reps["C01"].violation("printer-rejects-parser-model", id, "printer rejects the model returned by the parser: %v", err)
 				continue
 			}
 			if dsl2 != dsl {
-				reps["C01"].violation(id, "print(parse(dsl)) != dsl")
+				reps["C01"].violation("not-byte-stable", id, "print(parse(dsl)) != dsl")
 			}
 			js, err := protojson.Marshal(m2)
 			if err == nil {
 				dsl3, err := transformer.TransformJSONStringToDSL(string(js))
 				if err != nil || *dsl3 != dsl {
-					reps["C01"].violation(id, "JSON string API path is not byte-stable (err=%v)", err)
+					reps["C01"].violation("json-path-not-stable", id, "JSON string API path is not byte-stable (err=%v)", err)
 				}
 			}
 			m3, err := transformer.TransformDSLToProto(dsl2)
 			if err != nil || modelDigest(m3, false) != modelDigest(m2, false) {
-				reps["C01"].violation(id, "second round trip changes the model")
+				reps["C01"].violation("second-roundtrip-differs", id, "second round trip changes the model")
 			}
 		}
 	}
